@@ -4,7 +4,7 @@
     [full_list m] is the menu's candidate vector after fetching everything. *)
 From Coq Require Import List Arith NArith Bool.
 From RimeV Require Import MenuM.Gen MenuM.Menu MenuM.Spec MenuM.GenProofs MenuM.MenuProofs
-  MenuM.UniqProofs MenuM.WfProofs MenuM.SpecProofs MenuM.Examples.
+  MenuM.UniqProofs MenuM.WfProofs MenuM.SpecProofs MenuM.Examples MenuM.ConstsProofs Gen.MenuConsts.
 Import ListNotations.
 
 (** Fetching more candidates only appends: what was shown at an index stays
@@ -109,6 +109,15 @@ Print Assumptions C04_uniq_then_single_char_no_dup.
     the uniquifier (charset filter after it, several prefetchers) is not proved. *)
 Definition C04_uniq_anywhere_full : Prop :=
   forall ts fs, In FUniquifier fs -> NoDup (texts (full_list (build_menu ts fs))).
+
+(** The charset filter of the model tests exactly the code-point ranges that
+    is_extended_cjk() of the current src/rime/gear/charset_filter.cc tests
+    (translator gen/menu_consts.py; it refuses rather than guess). *)
+Theorem C04_charset_ranges_current :
+  ext_cjk_recognised = true /\
+  forall ch, is_extended_cjk ch = existsb (fun r => in_range (fst r) (snd r) ch) ext_cjk_ranges.
+Proof. exact ext_cjk_ranges_current. Qed.
+Print Assumptions C04_charset_ranges_current.
 
 (** Non-vacuity: a live, well-formed menu (lazy merge of a distinct+cached
     stream, a second stream and the echo candidate, behind the uniquifier) in
